@@ -191,6 +191,48 @@ fn probe<F: UnitTag + Convert<T> + 'static, T: UnitTag + 'static>(obs: &[Obs], o
             rec_of(&m.with_unit::<T>()),
         ));
     }
+    // 3b. the validating ways into a Mean (own collector with its own unit check), and inline
+    // distributions
+    {
+        let srcs: Vec<Src1<F>> = obs.iter().map(|o| Src1::<F>(o.clone(), PhantomData)).collect();
+        let mut total = 0.0f64;
+        let mut occ: Option<u64> = Some(0);
+        for o in obs {
+            let (t, n) = match o {
+                Obs::U(u) => (*u as f64, 1u64),
+                Obs::Fl(f) => (f.0, 1),
+                Obs::Rep { total, occ } => (total.0, *occ),
+            };
+            total += t;
+            occ = occ.and_then(|x| x.checked_add(n));
+        }
+        // occurrence sums beyond u64 are outside the property (the library adds them unchecked)
+        if let Some(n) = occ.filter(|n| *n > 0) {
+            let expect = vec![Obs::Rep { total: F(total), occ: n }];
+            let to_recs = |r: Result<Mean<F>, metrique_writer_core::ValidationError>| match r {
+                Ok(m) => rec_of(&m.with_unit::<T>()),
+                Err(e) => vec![Rec::Value { name: "x".into(), val: RecVal::Error(e.to_string()) }],
+            };
+            out.push(mk("mean", expect.clone(), to_recs(Mean::<F>::try_new(srcs.iter()))));
+            let mut m2 = Mean::<F>::default();
+            let r2 = m2.try_extend(srcs.iter()).map(|()| m2);
+            out.push(mk("mean", expect.clone(), to_recs(r2)));
+            let d: Distribution<Src1<F>> = obs.iter().map(|o| Src1::<F>(o.clone(), PhantomData)).collect();
+            out.push(mk("mean", expect, to_recs(d.try_to_mean())));
+        }
+        let d2: Distribution<Src1<F>, 2> = obs.iter().map(|o| Src1::<F>(o.clone(), PhantomData)).collect();
+        out.push(mk("distribution", obs.to_vec(), rec_of(&d2.with_unit::<T>())));
+        let mut d8: Distribution<Src1<F>, 8> = std::iter::empty().collect();
+        for o in obs {
+            d8.add(Src1::<F>(o.clone(), PhantomData));
+        }
+        out.push(mk("distribution", obs.to_vec(), rec_of(&d8.with_unit::<T>())));
+        // smart pointers around the value keep its unit
+        let boxed = Box::new(Src::<F>(obs.to_vec(), PhantomData));
+        out.push(mk("direct", obs.to_vec(), rec_of(&boxed.with_unit::<T>())));
+        let arc = std::sync::Arc::new(Src::<F>(obs.to_vec(), PhantomData));
+        out.push(mk("direct", obs.to_vec(), rec_of(&arc.with_unit::<T>())));
+    }
     // 4. option
     let some: Option<Src<F>> = Some(Src::<F>(obs.to_vec(), PhantomData));
     out.push(mk("option-some", obs.to_vec(), rec_of(&some.with_unit::<T>())));
@@ -213,6 +255,23 @@ fn probe<F: UnitTag + Convert<T> + 'static, T: UnitTag + 'static>(obs: &[Obs], o
     }
     let ds: Distribution<Stringy<F>> = (0..(1 + obs.len() % 2)).map(|_| Stringy::<F>(PhantomData)).collect();
     out.push(mk("string", vec![], rec_of(&ds)));
+    {
+        let err_or = |r: Result<Mean<F>, metrique_writer_core::ValidationError>| match r {
+            Ok(m) => rec_of(&m),
+            Err(e) => vec![Rec::Value { name: "x".into(), val: RecVal::Error(e.to_string()) }],
+        };
+        let mode = (obs.len() % 4) as u8;
+        let liars: Vec<Liar<F>> = (0..(1 + obs.len() % 3)).map(|_| Liar::<F>(mode, PhantomData)).collect();
+        out.push(mk("liar", vec![], err_or(Mean::<F>::try_new(liars.iter()))));
+        let mut m = Mean::<F>::default();
+        let r = m.record_value(&liars[0]).map(|()| m);
+        out.push(mk("liar", vec![], err_or(r)));
+        let dl: Distribution<Liar<F>, 4> = (0..(1 + obs.len() % 3)).map(|_| Liar::<F>(mode, PhantomData)).collect();
+        out.push(mk("liar", vec![], err_or(dl.try_to_mean())));
+        out.push(mk("liar", vec![], rec_of(&dl)));
+        let strs = [Stringy::<F>(PhantomData)];
+        out.push(mk("string", vec![], err_or(Mean::<F>::try_new(strs.iter()))));
+    }
 }
 
 fn probe_roundtrip<F: UnitTag + Convert<T> + 'static, T: UnitTag + Convert<F> + 'static>(
@@ -307,6 +366,37 @@ fn check_tag_table() -> Result<(), Fail> {
                         format!("tag unit::{ident} has unit {u:?} with scale {other:?}, its identifier promises {num}/{den} in family {fam}"),
                     ));
                 }
+            }
+        }
+    }
+    // the documented As<Unit> aliases must declare the unit their name says (tag idents above)
+    macro_rules! alias_rows {
+        ($($alias:ident => $tag:ident),* $(,)?) => {
+            vec![$((stringify!($alias), stringify!($tag), {
+                let v: unit::$alias<Src1<unit::None>> = Src1::<unit::None>(Obs::U(1), PhantomData).into();
+                rec_of(&v)
+            })),*]
+        };
+    }
+    let rows = alias_rows!(
+        AsNone => None, AsCount => Count, AsPercent => Percent, AsSeconds => Second, AsMilliseconds => Millisecond,
+        AsMicroseconds => Microsecond, AsBytes => Byte, AsKilobytes => Kilobyte, AsMegabytes => Megabyte,
+        AsGigabytes => Gigabyte, AsTerabytes => Terabyte, AsBits => Bit, AsKilobits => Kilobit, AsMegabits => Megabit,
+        AsGigabits => Gigabit, AsTerabits => Terabit, AsBytesPerSecond => BytePerSecond,
+        AsKilobytesPerSecond => KilobytePerSecond, AsMegabytesPerSecond => MegabytePerSecond,
+        AsGigabytesPerSecond => GigabytePerSecond, AsTerabytesPerSecond => TerabytePerSecond,
+        AsBitsPerSecond => BitPerSecond, AsKilobitsPerSecond => KilobitPerSecond, AsMegabitsPerSecond => MegabitPerSecond,
+        AsGigabitsPerSecond => GigabitPerSecond, AsTerabitsPerSecond => TerabitPerSecond,
+    );
+    for (alias, tag, out) in rows {
+        let want: String = tag_literal(tag).map(|t| t.0.to_string()).unwrap_or_default();
+        match out.as_slice() {
+            [Rec::Value { val: RecVal::Metric { unit, obs, .. }, .. }] if *unit == want && obs.len() == 1 => {}
+            other => {
+                return Err(Fail::new(
+                    "unit:wrong-unit-name",
+                    format!("unit::{alias}<V> over a unitless 1 wrote {other:?}, its name promises unit {want:?}"),
+                ));
             }
         }
     }
